@@ -1,4 +1,25 @@
-// engine K harnesses for module hook 'protocol_mod' (included under cfg(kani) by /repo)
+// engine K — protocol/mod.rs (property C06: record ids convert to PRSS indices without aliasing)
+use super::*;
+
+/// RecordId <-> integer conversions are exact on 0..=u32::MAX, `+ usize` is exact when the sum fits
+/// (outside that range the code panics; it never wraps to an earlier id).
+#[kani::proof]
+fn c06_record_id_arith() {
+    let v: usize = kani::any();
+    kani::assume(v <= u32::MAX as usize);
+    let d: usize = kani::any();
+    kani::assume(d <= u32::MAX as usize - v);
+    kani::cover!(v + d == u32::MAX as usize && d > 0);
+    let r = RecordId::from(v);
+    assert!(usize::from(r) == v && u32::from(r) as usize == v && u128::from(r) == v as u128);
+    assert!(usize::from(r + d) == v + d);
+    let mut s = r;
+    s += d;
+    assert!(usize::from(s) == v + d);
+    // record id -> PRSS index is the identity on the integer
+    let p = crate::protocol::prss::PrssIndex::from(r);
+    assert!(p == crate::protocol::prss::PrssIndex::from(v as u32));
+}
 
 #[cfg(test)]
 include!(concat!(env!("IPA_VERIF_DIR"), "/.build/playback/protocol_mod.rs"));
